@@ -111,7 +111,25 @@ def showObs : Obs → String
   | .steps ss => " ".intercalate (ss.map fun s => (if s.1 then "T:" else "F:") ++ optTok s.2.1 ++ ":" ++ optTok s.2.2)
   | .unspecified => "unspecified"
 
+/-- `hasf S P`: tx.FetchBucket(meta of path P) != nil — tied by correspondence only (no spec column) -/
+def hasFetch (st : St) (sl : String) (pt : String) : String :=
+  match parseSlot sl, parsePath pt with
+  | some slot, some p =>
+    if p.isEmpty then "bad-op" else
+    let paths := Model.KV.itoa p.length :: p
+    let name := p.getLast?.getD []
+    let run (tx : Model.KV.Tx) : String := if (tx.fetchBucket paths name p.length).isSome then "yes" else "no"
+    match slot with
+    | .w => match st.m.w with
+      | none => "no-tx"
+      | some bt => run { readOnly := false, db := st.m.db, b := bt }
+    | .r => if st.m.reader then run { readOnly := true, db := st.m.db } else "no-tx"
+  | _, _ => "bad-op"
+
 def step (st : St) (args : List String) : St × String :=
+  match args with
+  | ["hasf", sl, pt] => (st, hasFetch st sl pt)
+  | _ =>
   match parseOp args with
   | none => (st, "bad-op")
   | some op =>
